@@ -142,3 +142,262 @@ Proof.
   - lia.
   - rewrite firstn_length. lia.
 Qed.
+
+(** ** Unfolding decoding one scalar value at a time (no fuel in sight) *)
+
+Lemma decode_prefix_step s c n : utf8_step s = Some (c, n) ->
+  decode_prefix s = (c :: fst (decode_prefix (skipn n s)), (n + snd (decode_prefix (skipn n s)))%nat).
+Proof.
+  intros E. unfold decode_prefix. pose proof (utf8_step_len _ _ _ E) as Hn.
+  destruct s as [|b t]; [discriminate|].
+  change (length (b :: t)) with (S (length t)). cbn [decode_fuel]. rewrite E.
+  rewrite (decode_fuel_enough (length t) (length (skipn n (b :: t))) (skipn n (b :: t))).
+  - destruct (decode_fuel (length (skipn n (b :: t))) (skipn n (b :: t))); reflexivity.
+  - rewrite skipn_length. cbn [length]. lia.
+  - lia.
+Qed.
+
+Lemma decode_prefix_stop s : utf8_step s = None -> decode_prefix s = ([], O).
+Proof.
+  intros E. unfold decode_prefix. destruct (length s); [reflexivity|].
+  cbn [decode_fuel]. rewrite E. reflexivity.
+Qed.
+
+Lemma valid_up_to_step s c n : utf8_step s = Some (c, n) ->
+  valid_up_to s = (n + valid_up_to (skipn n s))%nat.
+Proof. intros E. unfold valid_up_to. rewrite (decode_prefix_step s c n E). reflexivity. Qed.
+
+Lemma decode_step s c n : utf8_step s = Some (c, n) -> decode s = c :: decode (skipn n s).
+Proof. intros E. unfold decode. rewrite (decode_prefix_step s c n E). reflexivity. Qed.
+
+Lemma valid_up_to_stop s : utf8_step s = None -> valid_up_to s = O.
+Proof. intros E. unfold valid_up_to. rewrite (decode_prefix_stop s E). reflexivity. Qed.
+
+Lemma decode_stop s : utf8_step s = None -> decode s = [].
+Proof. intros E. unfold decode. rewrite (decode_prefix_stop s E). reflexivity. Qed.
+
+(** induction along the scalar values of a byte string *)
+Lemma utf8_ind (P : bytes -> Prop) :
+  (forall s, utf8_step s = None -> P s) ->
+  (forall s c n, utf8_step s = Some (c, n) -> P (skipn n s) -> P s) ->
+  forall s, P s.
+Proof.
+  intros Hstop Hstep s.
+  remember (length s) as k eqn:Hk. revert s Hk.
+  induction k as [k IH] using lt_wf_ind. intros s Hk.
+  destruct (utf8_step s) as [[c n]|] eqn:E; [|apply Hstop; exact E].
+  apply (Hstep s c n E). pose proof (utf8_step_len _ _ _ E) as Hn.
+  apply (IH (length (skipn n s))); [|reflexivity]. rewrite skipn_length. lia.
+Qed.
+
+Lemma utf8_step_app a b c n : utf8_step a = Some (c, n) -> utf8_step (a ++ b) = Some (c, n).
+Proof.
+  unfold utf8_step. destruct a as [|b0 t]; [discriminate|]. cbn [app].
+  destruct (b0 <? 128). { intros H; exact H. }
+  destruct ((194 <=? b0) && (b0 <=? 223)).
+  { destruct t as [|b1 t]; [discriminate|]. cbn [app]. intros H; exact H. }
+  destruct ((224 <=? b0) && (b0 <=? 239)).
+  { destruct t as [|b1 [|b2 t]]; try discriminate. cbn [app]. intros H; exact H. }
+  destruct ((240 <=? b0) && (b0 <=? 244)); [|discriminate].
+  destruct t as [|b1 [|b2 [|b3 t]]]; try discriminate. cbn [app]. intros H; exact H.
+Qed.
+
+Lemma utf8_valid_nil : utf8_valid [] = true.
+Proof. reflexivity. Qed.
+
+Lemma utf8_valid_skip s c n : utf8_valid s = true -> utf8_step s = Some (c, n) ->
+  utf8_valid (skipn n s) = true.
+Proof.
+  unfold utf8_valid. intros V E. apply Nat.eqb_eq in V. apply Nat.eqb_eq.
+  rewrite (valid_up_to_step s c n E) in V. pose proof (utf8_step_len _ _ _ E) as Hn.
+  rewrite skipn_length. lia.
+Qed.
+
+Lemma utf8_valid_nonempty s : utf8_valid s = true -> s <> [] ->
+  exists c n, utf8_step s = Some (c, n).
+Proof.
+  unfold utf8_valid. intros V Hne. apply Nat.eqb_eq in V.
+  destruct (utf8_step s) as [[c n]|] eqn:E; [exists c, n; reflexivity|].
+  rewrite (valid_up_to_stop s E) in V. destruct s; [congruence|discriminate].
+Qed.
+
+Lemma utf8_valid_cons s c n : utf8_step s = Some (c, n) -> utf8_valid (skipn n s) = true ->
+  utf8_valid s = true.
+Proof.
+  unfold utf8_valid. intros E V. apply Nat.eqb_eq in V. apply Nat.eqb_eq.
+  rewrite (valid_up_to_step s c n E). pose proof (utf8_step_len _ _ _ E) as Hn.
+  rewrite skipn_length in V. lia.
+Qed.
+
+(** decoding a well-formed string followed by anything: the well-formed part first *)
+Lemma valid_app a : forall b, utf8_valid a = true ->
+  valid_up_to (a ++ b) = (length a + valid_up_to b)%nat /\ decode (a ++ b) = decode a ++ decode b.
+Proof.
+  induction a as [a E | a c n E IH] using utf8_ind; intros b V.
+  - assert (a = []) as ->.
+    { unfold utf8_valid in V. apply Nat.eqb_eq in V. rewrite (valid_up_to_stop a E) in V.
+      destruct a; [reflexivity|discriminate]. }
+    split; reflexivity.
+  - pose proof (utf8_step_len _ _ _ E) as Hn.
+    pose proof (utf8_step_app a b c n E) as Eab.
+    assert (Hsk : skipn n (a ++ b) = skipn n a ++ b).
+    { rewrite skipn_app. replace (n - length a)%nat with O by lia. reflexivity. }
+    destruct (IH b (utf8_valid_skip a c n V E)) as [IH1 IH2].
+    rewrite (valid_up_to_step _ c n Eab), (decode_step _ c n Eab), Hsk, IH1, IH2.
+    rewrite (decode_step a c n E). rewrite skipn_length. split; [lia|reflexivity].
+Qed.
+
+Lemma utf8_valid_app a b : utf8_valid a = true -> utf8_valid b = true -> utf8_valid (a ++ b) = true.
+Proof.
+  intros Va Vb. unfold utf8_valid. apply Nat.eqb_eq.
+  rewrite (proj1 (valid_app a b Va)). unfold utf8_valid in Vb. apply Nat.eqb_eq in Vb.
+  rewrite app_length. lia.
+Qed.
+
+(** decoding stops exactly where no well-formed sequence starts *)
+Lemma step_after_valid_prefix s : utf8_step (skipn (valid_up_to s) s) = None.
+Proof.
+  induction s as [s E | s c n E IH] using utf8_ind.
+  - rewrite (valid_up_to_stop s E). exact E.
+  - rewrite (valid_up_to_step s c n E). rewrite <- skipn_add. exact IH.
+Qed.
+
+Lemma decode_valid_prefix s : decode (firstn (valid_up_to s) s) = decode s.
+Proof.
+  induction s as [s E | s c n E IH] using utf8_ind.
+  - rewrite (valid_up_to_stop s E), (decode_stop s E). reflexivity.
+  - rewrite (valid_up_to_step s c n E), (decode_step s c n E).
+    pose proof (utf8_step_len _ _ _ E) as Hn.
+    rewrite (decode_step _ c n (utf8_step_prefix s c n (n + valid_up_to (skipn n s)) E ltac:(lia))).
+    f_equal. rewrite skipn_firstn_comm.
+    replace (n + valid_up_to (skipn n s) - n)%nat with (valid_up_to (skipn n s)) by lia.
+    exact IH.
+Qed.
+
+(** one well-formed sequence is a well-formed string *)
+Lemma utf8_valid_char s c n : utf8_step s = Some (c, n) -> utf8_valid (firstn n s) = true.
+Proof.
+  intros E. pose proof (utf8_step_len _ _ _ E) as Hn.
+  apply (utf8_valid_cons _ c n (utf8_step_prefix s c n n E (le_n n))).
+  rewrite skipn_all2; [reflexivity|]. rewrite firstn_length. lia.
+Qed.
+
+(** a string is valid iff decoding consumes all of it: nothing unread is left *)
+Lemma utf8_valid_iff s : utf8_valid s = true <-> skipn (valid_up_to s) s = [].
+Proof.
+  unfold utf8_valid. pose proof (valid_up_to_le s) as Hle. split.
+  - intros V. apply Nat.eqb_eq in V. rewrite V. apply skipn_all.
+  - intros H. apply Nat.eqb_eq. apply (f_equal (@length N)) in H. rewrite skipn_length in H.
+    cbn [length] in H. lia.
+Qed.
+
+Lemma ascii_valid s : (forall b, In b s -> b < 128) -> utf8_valid s = true.
+Proof.
+  induction s as [|b t IH]; intros H; [reflexivity|].
+  assert (E : utf8_step (b :: t) = Some (b, 1%nat)).
+  { unfold utf8_step. assert (Hb : b < 128) by (apply H; left; reflexivity).
+    apply N.ltb_lt in Hb. rewrite Hb. reflexivity. }
+  apply (utf8_valid_cons _ b 1%nat E). cbn [skipn]. apply IH. intros x Hx. apply H. right. exact Hx.
+Qed.
+
+(** ** Encoding, and what a decoded scalar value consumed *)
+
+Definition utf8_encode (c : N) : bytes :=
+  if c <? 128 then [c]
+  else if c <? 2048 then [192 + c / 64; 128 + c mod 64]
+  else if c <? 65536 then [224 + c / 4096; 128 + (c / 64) mod 64; 128 + c mod 64]
+  else [240 + c / 262144; 128 + (c / 4096) mod 64; 128 + (c / 64) mod 64; 128 + c mod 64].
+
+Ltac bools :=
+  repeat match goal with
+         | H : _ && _ = true |- _ => apply andb_true_iff in H; destruct H
+         | H : (_ <=? _) = true |- _ => apply N.leb_le in H
+         | H : (_ <? _) = true |- _ => apply N.ltb_lt in H
+         | H : (_ <? _) = false |- _ => apply N.ltb_ge in H
+         | H : (_ =? _) = true |- _ => apply N.eqb_eq in H
+         | H : (_ =? _) = false |- _ => apply N.eqb_neq in H
+         end.
+
+Lemma divmod_2 hi lo : lo < 64 -> (hi * 64 + lo) / 64 = hi /\ (hi * 64 + lo) mod 64 = lo.
+Proof.
+  intros H. split.
+  - symmetry. apply (N.div_unique _ 64 hi lo); lia.
+  - symmetry. apply (N.mod_unique _ 64 hi lo); lia.
+Qed.
+
+Lemma cont_range b : cont b = true -> 128 <= b /\ b - 128 < 64.
+Proof. unfold cont. intros H. bools. lia. Qed.
+
+(** the bytes a decoded scalar value came from are its encoding, and it is a scalar value *)
+Lemma utf8_step_encode s c n : utf8_step s = Some (c, n) ->
+  firstn n s = utf8_encode c /\ c < 1114112 /\ ~ (55296 <= c < 57344).
+Proof.
+  unfold utf8_step. destruct s as [|b0 t]; [discriminate|].
+  destruct (b0 <? 128) eqn:A.
+  { intros H; inversion H; subst. unfold utf8_encode. rewrite A. bools. split; [reflexivity|lia]. }
+  destruct ((194 <=? b0) && (b0 <=? 223)) eqn:B.
+  { destruct t as [|b1 t]; [discriminate|]. destruct (cont b1) eqn:C1; [|discriminate].
+    intros H; inversion H; subst. clear H. apply cont_range in C1. bools.
+    set (h := b0 - 192). set (l := b1 - 128).
+    assert (Hh : 2 <= h < 32) by (unfold h; lia). assert (Hl : l < 64) by (unfold l; lia).
+    destruct (divmod_2 h l Hl) as [D M].
+    unfold utf8_encode.
+    replace (h * 64 + l <? 128) with false by (symmetry; apply N.ltb_ge; lia).
+    replace (h * 64 + l <? 2048) with true by (symmetry; apply N.ltb_lt; lia).
+    rewrite D, M. cbn [firstn]. split; [|lia]. f_equal; [unfold h; lia|]. f_equal. unfold l; lia. }
+  destruct ((224 <=? b0) && (b0 <=? 239)) eqn:C.
+  { destruct t as [|b1 [|b2 t]]; try discriminate.
+    destruct (_ && _ && cont b2) eqn:K; [|discriminate].
+    intros H; inversion H; subst. clear H.
+    apply andb_true_iff in K. destruct K as [K C2]. apply cont_range in C2.
+    apply andb_true_iff in K. destruct K as [K1 K2]. bools.
+    set (h := b0 - 224). set (m := b1 - 128). set (l := b2 - 128).
+    assert (Hh : h < 16) by (unfold h; lia).
+    assert (Hl : l < 64) by (unfold l; lia).
+    assert (Hb1 : 128 <= b1 <= 191).
+    { destruct (b0 =? 224); destruct (b0 =? 237); lia. }
+    assert (Hm : m < 64) by (unfold m; lia).
+    assert (Hlo : h = 0 -> 32 <= m).
+    { intros Hz. destruct (b0 =? 224) eqn:Z; bools; unfold h, m in *; lia. }
+    assert (Hhi : h = 13 -> m < 32).
+    { intros Hz. destruct (b0 =? 237) eqn:Z; bools; unfold h, m in *; lia. }
+    replace (h * 4096 + m * 64 + l) with ((h * 64 + m) * 64 + l) by lia.
+    destruct (divmod_2 (h * 64 + m) l Hl) as [D M]. destruct (divmod_2 h m Hm) as [D2 M2].
+    unfold utf8_encode.
+    replace ((h * 64 + m) * 64 + l <? 128) with false by (symmetry; apply N.ltb_ge; lia).
+    replace ((h * 64 + m) * 64 + l <? 2048) with false by (symmetry; apply N.ltb_ge; lia).
+    replace ((h * 64 + m) * 64 + l <? 65536) with true by (symmetry; apply N.ltb_lt; lia).
+    change 4096 with (64 * 64). rewrite <- N.div_div by lia. rewrite D, D2, M2, M.
+    cbn [firstn]. split; [|lia].
+    f_equal; [unfold h; lia|]. f_equal; [unfold m; lia|]. f_equal. unfold l; lia. }
+  destruct ((240 <=? b0) && (b0 <=? 244)) eqn:D4; [|discriminate].
+  destruct t as [|b1 [|b2 [|b3 t]]]; try discriminate.
+  destruct (_ && _ && cont b2 && cont b3) eqn:K; [|discriminate].
+  intros H; inversion H; subst. clear H.
+  apply andb_true_iff in K. destruct K as [K C3]. apply cont_range in C3.
+  apply andb_true_iff in K. destruct K as [K C2]. apply cont_range in C2.
+  apply andb_true_iff in K. destruct K as [K1 K2]. bools.
+  set (h := b0 - 240). set (m1 := b1 - 128). set (m2 := b2 - 128). set (l := b3 - 128).
+  assert (Hh : h < 5) by (unfold h; lia).
+  assert (Hl : l < 64) by (unfold l; lia).
+  assert (Hm2 : m2 < 64) by (unfold m2; lia).
+  assert (Hb1 : 128 <= b1 <= 191).
+  { destruct (b0 =? 240); destruct (b0 =? 244); lia. }
+  assert (Hm1 : m1 < 64) by (unfold m1; lia).
+  assert (Hlo : h = 0 -> 16 <= m1).
+  { intros Hz. destruct (b0 =? 240) eqn:Z; bools; unfold h, m1 in *; lia. }
+  assert (Hhi : h = 4 -> m1 < 16).
+  { intros Hz. destruct (b0 =? 244) eqn:Z; bools; unfold h, m1 in *; lia. }
+  replace (h * 262144 + m1 * 4096 + m2 * 64 + l) with (((h * 64 + m1) * 64 + m2) * 64 + l) by lia.
+  destruct (divmod_2 ((h * 64 + m1) * 64 + m2) l Hl) as [D M].
+  destruct (divmod_2 (h * 64 + m1) m2 Hm2) as [D2 M2].
+  destruct (divmod_2 h m1 Hm1) as [D3 M3].
+  unfold utf8_encode.
+  replace (((h * 64 + m1) * 64 + m2) * 64 + l <? 128) with false by (symmetry; apply N.ltb_ge; lia).
+  replace (((h * 64 + m1) * 64 + m2) * 64 + l <? 2048) with false by (symmetry; apply N.ltb_ge; lia).
+  replace (((h * 64 + m1) * 64 + m2) * 64 + l <? 65536) with false by (symmetry; apply N.ltb_ge; lia).
+  change 262144 with (64 * (64 * 64)). change 4096 with (64 * 64).
+  rewrite <- !N.div_div by lia. rewrite D, D2, D3, M3, M2, M.
+  cbn [firstn]. split; [|lia].
+  f_equal; [unfold h; lia|]. f_equal; [unfold m1; lia|]. f_equal; [unfold m2; lia|]. f_equal. unfold l; lia.
+Qed.
